@@ -76,6 +76,16 @@ namespace Dimension {}
 /// Quantities library's own functions and classes.
 namespace Internal {
 
+/// \brief Arc cosine of a cosine that rounding may have pushed slightly outside [-1, 1], as happens
+/// for the cosine of the angle between two parallel or antiparallel vectors. The argument is clamped
+/// to [-1, 1] such that the result is always a real number in [0, π] rather than NaN. This is an
+/// internal implementation detail used when computing the angle between two vectors.
+template <typename NumericType>
+[[nodiscard]] inline NumericType ArcCosine(const NumericType cosine) noexcept {
+  return std::acos(
+      std::clamp(cosine, static_cast<NumericType>(-1), static_cast<NumericType>(1)));
+}
+
 /// \brief Map of enumerations to their corresponding abbreviations. This is an internal
 /// implementation detail and is not intended to be used except by the PhQ::Abbreviation function.
 template <typename Enumeration>
